@@ -145,6 +145,15 @@ CHECKS = {
              "x working_directory {unset, relative, with spaces, absolute} x EXTEND/EMPTY; parent cwd lengths 100..20000 bytes around PATH_MAX under "
              "ASan/UBSan. Oracle: the helper's argv/envp/getcwd byte for byte; the helper image really ran (resolved against the parent's cwd); beyond "
              "PATH_MAX a negative result, no child, no sanitizer report. Outside the bound: strings longer than 2 bytes beyond the two long cases."),
+    "C14": dict(
+        cat="model_checking", design="3/C14 + Appendix E",
+        technique="explicit-state breadth-first search over API histories of the real library (each transition replays the history in a fresh process), states deduplicated by a canonical digest, reference life-cycle model as oracle, ASan+UBSan build",
+        text="Alphabet of 28 operations: start {echo child, exit-at-once child, invalid options, failing program with a deadline}, pid, write, write(NULL,0), "
+             "read out/err/size 0/invalid stream/NULL buffer, close in/out/err/invalid, poll (mask 15, timeout 0) / poll(NULL) / zero sources, wait(0), "
+             "wait(DEADLINE), terminate, kill, stop{wait 0}, stop{kill INF}, destroy + fresh handle, every API with a NULL handle, and the environment "
+             "operations 'child performs its next step' and 'time passes'. Histories of length 4 (quick) / 6 (thorough), every newly found state expanded "
+             "with every operation. Oracle: ref_life (state NOT_STARTED -> RUNNING -> EXITED only; what each call must return in each state, using the "
+             "kernel for pending-byte truth), no sanitizer report, no signal death, nothing left after destroy."),
 }
 
 NOT_YET = "check not built yet (work in progress; see DESIGN.md section 7 for the build order)"
